@@ -1,6 +1,5 @@
 \* spec mutant: the mechanism variant "default_none_absent" (see GlomErrors.tla) must violate a law
 CONSTANTS
-  Fix = TRUE
   Mutant = "default_none_absent"
   MinDepth = 0
   MaxDepth = 1
